@@ -36,14 +36,14 @@ Definition verdict (r : areq) (v : vkind) : bool :=
 Definition composite (cfg : list vkind) (r : areq) : bool := forallb (verdict r) cfg.
 
 (* processAddNode: true = NotarySignAndInvokeTX(main tx) is reached *)
-Definition admits (cfg : list vkind) (r : areq) : bool :=
+Definition accepts (cfg : list vkind) (r : areq) : bool :=
   a_alphabet r && a_parsed r && Nat.eqb (a_script r) 0
   && state_known (a_state r)      (* Node2Info: only ONLINE / MAINTENANCE convert *)
   && composite cfg r.
 
 (* reference *)
 Definition tx_valid (r : areq) : Prop := a_script r = 0.
-Definition may_admit (cfg : list vkind) (r : areq) : bool :=
+Definition may_accept (cfg : list vkind) (r : areq) : bool :=
   a_alphabet r && Nat.eqb (a_script r) 0 && forallb (verdict r) cfg.
 
 (* ---- epoch ticks ---- *)
@@ -110,11 +110,11 @@ Definition lists_eqb (a b : list (list N)) : bool :=
   Nat.eqb (length a) (length b)
   && forallb (fun p => Nat.eqb (length (fst p)) (length (snd p)) && forallb (fun q => N.eqb (fst q) (snd q)) (combine (fst p) (snd p))) (combine a b).
 
-Definition admit_mismatch (c : acase) : bool := let '(i, r, obs) := c in negb (Bool.eqb obs (admits (cfg_of i) r)).
-Definition admit_violation (c : acase) : bool := let '(i, r, obs) := c in obs && negb (may_admit (cfg_of i) r).
+Definition accept_mismatch (c : acase) : bool := let '(i, r, obs) := c in negb (Bool.eqb obs (accepts (cfg_of i) r)).
+Definition accept_violation (c : acase) : bool := let '(i, r, obs) := c in obs && negb (may_accept (cfg_of i) r).
 Definition hist_mismatch (c : hcase) : bool := let '(init, a0, h, calls) := c in negb (lists_eqb calls (run (mkhst init a0) h)).
 Definition hist_violation (c : hcase) : bool := let '(init, a0, h, calls) := c in negb (lists_eqb calls (spec init a0 h)).
-Definition admit_mismatches := idx_from 0 admit_mismatch.
-Definition admit_violations := idx_from 0 admit_violation.
+Definition accept_mismatches := idx_from 0 accept_mismatch.
+Definition accept_violations := idx_from 0 accept_violation.
 Definition hist_mismatches := idx_from 0 hist_mismatch.
 Definition hist_violations := idx_from 0 hist_violation.
